@@ -133,6 +133,13 @@ func (r *Report) finish(verifDir string) int {
 	if strings.TrimSpace(r.Explanation) == "" {
 		r.Explanation = "static analysis of property " + r.Property + " (see DESIGN.md)"
 	}
+	for _, f := range r.Floors {
+		// a rule that found fewer instances than were confirmed by hand would
+		// pass vacuously: not established, reported like a violation
+		fmt.Fprintf(os.Stderr, "ANALYSIS-INCOMPLETE: %s\n", f)
+		r.violate("UNDECIDED", "instances / "+f, "-", "a rule matched fewer constructs than were confirmed on the reference tree ("+f+"): the code it is anchored in has changed shape or disappeared, so the condition is not established", nil)
+	}
+	r.Floors = nil
 	kf := loadKnown(verifDir)
 	known := map[string]string{}
 	for _, f := range kf.Findings {
